@@ -64,6 +64,8 @@ def gen_cases(tier, seed):
     out = []
     for i in range(n):
         out.append({"naming": "free" if i % 8 in (6, 7) else "plan", "version": [2.0, 2.1][i % 2], "profile": PROFILES[(i // 2) % len(PROFILES)], "n_ops": [8, 14, 22, 40][(i // 16) % 4] if tier == "thorough" else [8, 14, 22][(i // 16) % 3]})
+    for i in range(24 if tier == "quick" else 160):
+        out.append({"kind": "shared_types", "version": [2.0, 2.1][i % 2]})
     return out
 
 
@@ -854,8 +856,113 @@ def self_name(hole, uid):
     return d[0].name if d else f"<{uid}>"
 
 
+def run_shared_types(case, rec):
+    """Several drillhole groups in one workspace, and logs of different holes that share one data type (a reference table used
+    on purpose for every hole, a float type with units).  After a re-open one hole's log is read and removed, the user's
+    reference is dropped, the workspace lists its types (any later sweep): every other hole's stored, not-yet-loaded log still
+    reads back as written - values, type, reference table - in the same session and after another re-open."""
+    import tempfile
+
+    from geoh5py.groups import ContainerGroup, DrillholeGroup
+    from geoh5py.objects import Drillhole
+    from geoh5py.workspace import Workspace
+
+    rng = random.Random(case["seed"])
+    d = tempfile.mkdtemp(prefix="gvm_c04s_")
+    path = os.path.join(d, "s.geoh5")
+    vmap = {1: "granite", 2: "basalt", 3: "schist"}
+    n_groups, n_holes = 2 + case["seed"] % 2, 2 + (case["seed"] // 2) % 2
+    expect = {}  # (group, hole) -> {"lith": (values, type uid), "au": (values, type uid)}
+    ws = None
+    try:
+        ws = Workspace.create(path, version=case["version"])
+        holder = ContainerGroup.create(ws, name="campaigns") if case["seed"] % 3 == 0 else None
+        for g in range(n_groups):
+            grp = DrillholeGroup.create(ws, name=f"G{g}", **({"parent": holder} if holder is not None and g else {}))
+            lith_type = au_type = None
+            for i in range(n_holes):
+                n = 3 + i
+                hole = Drillhole.create(ws, parent=grp, name=f"G{g}_H{i}", collar=[float(i), float(g), 0.0])
+                ft = np.c_[np.arange(n, dtype=float), np.arange(n) + 1.0]
+                lv = np.array([rng.randint(1, 3) for _ in range(n)], dtype="uint32")
+                av = np.arange(n) + 10.0 * i + 100.0 * g
+                la = {"values": lv, "from-to": ft}
+                la.update({"type": "referenced", "value_map": dict(vmap)} if lith_type is None else {"entity_type": lith_type})
+                aa = {"values": av, "from-to": ft}
+                if au_type is not None:
+                    aa["entity_type"] = au_type
+                lith = hole.add_data({"lith": la}, property_group="geology")
+                au = hole.add_data({"au": aa}, property_group="geology")
+                lith_type, au_type = lith.entity_type, au.entity_type
+                expect[(g, i)] = {"lith": (lv.copy(), lith_type.uid), "au": (av.copy(), au_type.uid)}
+            au_type.units = "g/t"
+        del grp, hole, lith, au, lith_type, au_type, holder
+        ws.close()
+        rec.see("workspaces-with-several-drillhole-groups")
+
+        def judge(w, where, removed):
+            for (g, i), logs in expect.items():
+                hole = w.get_entity(f"G{g}_H{i}")[0]
+                for nm, (vals, tuid) in logs.items():
+                    if (g, i, nm) in removed:
+                        rec.check("C04.values-" + where, nm not in hole.get_data_list(), op="shared-type:remove", cls="removed", attr=nm, detail=f"{nm} of G{g}_H{i} was removed and is still listed")
+                        continue
+                    try:
+                        dd = hole.get_data(nm)[0]
+                        got = None if dd is None else np.asarray(dd.values)
+                        tu = None if dd is None else dd.entity_type.uid
+                        vm = None
+                        if dd is not None and nm == "lith":
+                            vm = {k: v for k, v in dict(dd.entity_type.value_map()).items() if k != 0}
+                        ok = got is not None and len(got) == len(vals) and bool(np.all(got == vals)) and tu == tuid and (nm != "lith" or vm == vmap)
+                        detail = f"values {short(str(None if got is None else got.tolist()))} (written {short(str(vals.tolist()))}), type {tu} (written {tuid}), reference table {vm}"
+                    except Exception as exc:  # noqa: BLE001
+                        if not exc_origin(exc)[0]:
+                            raise
+                        ok, detail = False, f"reading raises {type(exc).__name__}: {short(str(exc), 160)}"
+                    rec.check("C04.values-" + where, ok, op="shared-type:remove", cls="other-hole" if (g, i) not in {(r[0], r[1]) for r in removed} else "same-hole", attr=nm,
+                              detail=f"G{g}_H{i}.{nm} after removing {sorted(removed)} from other holes: {detail}")
+
+        removed = set()
+        order = [(g, i) for g in range(n_groups) for i in range(n_holes - 1)]
+        rng.shuffle(order)
+        for g, i in order[: 1 + case["seed"] % 3]:
+            nm = ["lith", "au"][(case["seed"] + g + i) % 2]
+            ws = Workspace(path, mode="r+")
+            hole = ws.get_entity(f"G{g}_H{i}")[0]
+            dd = hole.get_data(nm)[0]
+            if (case["seed"] + i) % 2:
+                _ = dd.values
+            ws.remove_entity(dd)
+            removed.add((g, i, nm))
+            del dd, hole
+            gc.collect()
+            _ = ws.types
+            _ = ws.data
+            judge(ws, "live", removed)
+            ws.close()
+            rec.see("closes-validated")
+            ws = Workspace(path, mode="r")
+            judge(ws, "reopen", removed)
+            ws.close()
+            rec.see("removals-next-to-shared-types")
+        rec.nontrivial = True
+        rec.shape = ["shared-types", case["version"], n_groups, n_holes, sorted(removed)]
+        rec.sample = {"lane": "shared-types", "groups": n_groups, "holes": n_holes, "removed": sorted(removed)}
+    finally:
+        try:
+            if ws is not None:
+                ws.close()
+        except Exception:  # noqa: BLE001
+            pass
+        shutil.rmtree(d, ignore_errors=True)
+        gc.collect()
+
+
 def run_case(case, rec):
     warnings.simplefilter("ignore")
+    if case.get("kind") == "shared_types":
+        return run_shared_types(case, rec)
     rng = random.Random(case["seed"])
     drv = Driver(case, rec, rng)
     try:
